@@ -38,7 +38,7 @@ CLAIMED = {
         technique="Lean 4 refinement proof trie-walk = prefix specification (C06_find via fieldAt_insertSegs / fieldAt_fold / walkTree_eq) + correspondence with find_global and the lint",
         design="§4 C06"),
     "C07": dict(
-        text="Lean 4: every modelled library lint reaches the library only through the `resolved` flag of the use's first identifier: a call statement whose name is script-bound yields no must_use diagnostic and the diagnostics depend on the program only through the call statements and those flags (C07_must_use_inside, C07_must_use_outside); a locally bound root silences field access / assignment checks for every library and path (C07_access_inside). That `resolved` is exactly `Lua binds the identifier to a local` is C01_log (proved for every chunk). Checked on the real code by 35 use snippets (bare, parenthesised and trivia-separated roots) x 13 re-binding constructs placed inside, after, before and beside the binding's scope, each compared with a fresh-name twin.",
+        text="Lean 4: every modelled library lint reaches the library only through the `resolved` flag of the use's first identifier: a call statement whose name is script-bound yields no must_use diagnostic and the diagnostics depend on the program only through the call statements and those flags (C07_must_use_inside, C07_must_use_outside); a locally bound root silences field access / assignment checks for every library and path (C07_access_inside). That the flag is exactly `Lua binds the identifier to a local` is proved for every chunk: C07_gate_inside (an occurrence Lua binds to a local / parameter / loop variable / local function / self has a reference resolved to that declaration) and C07_gate_outside (an occurrence bound to nothing, of a name the file never assigns as a global, has an unresolved reference), corollaries of C01_log / C01_complete. Checked on the real code by 35 use snippets (bare, parenthesised and trivia-separated roots) x 13 re-binding constructs placed inside, after, before and beside the binding's scope, each compared with a fresh-name twin.",
         note=PROOF_NOTE + "PARTIAL: the deprecated and call-check lints are modelled up to their gate only; how each lint finds the use's first identifier (name paths, reference_at_byte) is covered by the twin runs.",
         technique='Lean 4 gate theorems over the scope/must_use/access models resting on the proved resolution equivalence + binding-vs-fresh-name twin runs of the real Checker',
         design="§4 C07"),
